@@ -176,9 +176,8 @@ def resolve_local(n, linit):
 
 # ---------------------------------------------------------------------------------------------------------------------
 # C03.helpers - exhaustive folding of the helper formulas
-def rule_helpers(rep, inst):
+def rule_helpers(rep, inst, R="C03.helpers"):
     d, W, full = inst.d, inst.W, inst.full
-    R = "C03.helpers"
 
     def base_fn(name):
         c = inst.find(name, "xdynamic_bitset_base", "owning") or inst.find(name, "xdynamic_bitset_base")
@@ -384,9 +383,10 @@ def rule_helpers(rep, inst):
             src_ok = any(s_ == ("ref", pname) for s_ in ir.subterms(a))
             (rep.holds if src_ok else rep.violates)(R, rl, flab, where=d.where(calls[0]), **({"detail": "assign(<%s as bool>)" % pname} if src_ok else {"detail": "assign() is not given the source"}))
             continue
-        if len(stores) != 1 or stores[0].get("opcode") != "=":
+        if len(stores) != 1 or stores[0].get("opcode") not in ("=", "^=", "|=", "&="):
             rep.inconclusive(R, rl, flab, where=d.where(f), detail="neither a call of assign(rhs) nor a single store to m_block")
             continue
+        sop = stores[0].get("opcode")
         pts = list(range(W)) if W <= 16 else [0, 1, 7, 8, 31, 32, 33, W - 2, W - 1]
         bad = None
         try:
@@ -397,7 +397,8 @@ def rule_helpers(rep, inst):
                             ctx = ceval.Ctx(d, {} if from_ref else {ps[0].get("id"): src}, {"m_block": own, "m_mask": 1 << p_})
                             if from_ref:
                                 ctx.objects = {pname: {"m_block": src, "m_mask": 1 << q_}}
-                            got = ceval.conv(ceval.ev(ir.ekids(stores[0])[1], ctx), inst.btype)
+                            rv = ceval.conv(ceval.ev(ir.ekids(stores[0])[1], ctx), inst.btype)
+                            got = {"=": rv, "^=": own ^ rv, "|=": own | rv, "&=": own & rv}[sop]
                             truth = bool(src & (1 << q_)) if from_ref else bool(src)
                             want = (own | (1 << p_)) if truth else (own & ~(1 << p_) & full)
                             if got != want:
